@@ -1,30 +1,82 @@
 //! C16: text strings and one-byte encodings. Finite domains are enumerated completely (all Unicode scalar values,
-//! all 7 tables x 256 bytes); strings over a 14-character class alphabet up to length 4 are a bounded family.
+//! all 5 public tables x 256 bytes) by `c16-text`. `c16-strings` holds the bounded families:
+//!  * every string over a 14-character class alphabet up to length 4;
+//!  * LONG text strings (the property quantifies over strings, not over characters): a character that needs two UTF-16
+//!    code units / several UTF-8 bytes at EVERY offset of a long run of one-unit characters, homogeneous runs of astral
+//!    characters at both parities, and seeded pseudo-random long strings with lengths around every power of two;
+//!  * text EXTRACTION: text over the repertoire of each predefined table is shown on a page whose font is bound in every
+//!    way the page tree allows (own /Resources or inherited from either ancestor level, outer levels empty / binding the
+//!    same resource name to another encoding / binding another name; direct and indirect dictionaries), extracted from
+//!    the document as built and after save + reload. The oracle is ISO 32000-1 7.7.3.4 (the nearest /Resources wins).
 #![allow(dead_code)]
 use crate::common::*;
-use lopdf::{decode_text_string, text_string, Document, Encoding, Object, StringFormat};
+use lopdf::content::{Content, Operation};
+use lopdf::{decode_text_string, dictionary, text_string, Dictionary, Document, Encoding, Object, ObjectId, Stream, StringFormat};
 use rayon::prelude::*;
 use serde_json::{json, Value};
+use std::sync::OnceLock;
+
+fn cp(c: char) -> String { format!("U+{:04X}", c as u32) }
+
+/// short strings verbatim; long ones as a run-length summary (so that details and replay logs stay readable)
+fn describe(s: &str) -> String {
+    let n = s.chars().count();
+    if n <= 40 { return format!("{:?}", s); }
+    let mut runs: Vec<(char, usize)> = vec![];
+    for c in s.chars() { match runs.last_mut() { Some((d, k)) if *d == c => *k += 1, _ => runs.push((c, 1)) } }
+    let mut parts: Vec<String> = runs.iter().take(6).map(|(c, k)| if *k == 1 { cp(*c) } else { format!("{} x {}", cp(*c), k) }).collect();
+    if runs.len() > 6 { parts.push(format!("... {} runs in all", runs.len())); }
+    let mut at = 0usize;
+    let mut wide: Vec<usize> = vec![];
+    for c in s.chars() { if c.len_utf16() == 2 && wide.len() < 3 { wide.push(at); } at += c.len_utf16(); }
+    format!("<{} chars = {} UTF-16 code units = {} UTF-8 bytes: {}; first surrogate pairs start at code units {:?}>", n, at, s.len(), parts.join(", "), wide)
+}
+
+fn describe_obj(o: &Object) -> String {
+    match o {
+        Object::String(b, f) if b.len() > 96 => format!("<{:?} string of {} bytes starting {:02x?}>", f, b.len(), &b[..8]),
+        _ => format!("{:?}", o),
+    }
+}
+
+fn first_diff(want: &str, got: &str) -> String {
+    let (mut w, mut g) = (want.chars(), got.chars());
+    let mut i = 0usize;
+    loop {
+        match (w.next(), g.next()) {
+            (None, None) => return "no difference".into(),
+            (a, b) if a == b => i += 1,
+            (a, b) => return format!("first difference at char {}: expected {}, got {}", i, a.map(cp).unwrap_or("end".into()), b.map(cp).unwrap_or("end".into())),
+        }
+    }
+}
 
 fn check_text(s: &str) -> Result<(), (String, String)> {
     let o = match guarded(|| text_string(s)) { Ok(o) => o, Err(p) => return Err(("text-no-panic".into(), format!("text_string panicked: {}", p))) };
     // form: ASCII stays a PDFDocEncoded literal; everything else UTF-16BE with BOM
     if let Object::String(bytes, _) = &o {
-        if !s.is_ascii() && !(bytes.starts_with(&[0xFE, 0xFF])) { return Err(("text-form".into(), format!("non-ASCII text {:?} not written as UTF-16BE with BOM: {:02x?}", s, bytes))); }
+        if !s.is_ascii() && !(bytes.starts_with(&[0xFE, 0xFF])) { return Err(("text-form".into(), format!("non-ASCII text {} not written as UTF-16BE with BOM: {}", describe(s), describe_obj(&o)))); }
+        // "UTF-16BE with a byte-order mark": two bytes per UTF-16 code unit after the mark
+        if !s.is_ascii() && bytes.len() != 2 + 2 * s.encode_utf16().count() { return Err(("text-form".into(), format!("non-ASCII text {} written as {} bytes, UTF-16BE with BOM has {}", describe(s), bytes.len(), 2 + 2 * s.encode_utf16().count()))); }
     } else { return Err(("text-form".into(), "text_string did not return a string object".into())); }
     match guarded(|| decode_text_string(&o)) {
         Err(p) => Err(("text-no-panic".into(), format!("decode_text_string panicked: {}", p))),
-        Ok(Err(e)) => Err(("text-roundtrip".into(), format!("{:?} encodes to {:?} which fails to decode: {}", s, o, e))),
-        Ok(Ok(back)) => if back == s { Ok(()) } else { Err(("text-roundtrip".into(), format!("{:?} encodes to {:?} which decodes to {:?}", s, o, back))) },
+        Ok(Err(e)) => Err(("text-roundtrip".into(), format!("{} encodes to {} which fails to decode: {}", describe(s), describe_obj(&o), e))),
+        Ok(Ok(back)) => if back == s { Ok(()) } else if s.chars().count() <= 40 { Err(("text-roundtrip".into(), format!("{:?} encodes to {:?} which decodes to {:?}", s, o, back))) }
+            else { Err(("text-roundtrip".into(), format!("{} encodes to {} which decodes to {} ({})", describe(s), describe_obj(&o), describe(&back), first_diff(s, &back)))) },
     }
 }
 
 fn utf8_bom(s: &str) -> Result<(), (String, String)> {
     let mut b = vec![0xEF, 0xBB, 0xBF];
     b.extend_from_slice(s.as_bytes());
-    match decode_text_string(&Object::String(b, StringFormat::Literal)) {
-        Ok(t) if t == s => Ok(()),
-        other => Err(("utf8-bom".into(), format!("UTF-8 with BOM of {:?} decodes to {:?}", s, other.map_err(|e| e.to_string())))),
+    let o = Object::String(b, StringFormat::Literal);
+    match guarded(|| decode_text_string(&o)) {
+        Err(p) => Err(("text-no-panic".into(), format!("decode_text_string panicked on UTF-8 with BOM of {}: {}", describe(s), p))),
+        Ok(Ok(t)) if t == s => Ok(()),
+        Ok(other) if s.chars().count() <= 40 => Err(("utf8-bom".into(), format!("UTF-8 with BOM of {:?} decodes to {:?}", s, other.map_err(|e| e.to_string())))),
+        Ok(Err(e)) => Err(("utf8-bom".into(), format!("UTF-8 with BOM of {} fails to decode: {}", describe(s), e))),
+        Ok(Ok(t)) => Err(("utf8-bom".into(), format!("UTF-8 with BOM of {} decodes to {} ({})", describe(s), describe(&t), first_diff(s, &t)))),
     }
 }
 
@@ -95,10 +147,360 @@ pub fn run(thorough: bool) -> Report {
     rep
 }
 
+const CLASS_ALPHABET: [char; 14] = ['a', ' ', '\n', '\u{0}', '\u{7f}', '\u{18}', 'é', '\u{ff}', '\u{feff}', '\u{fffe}', 'Ā', '€', '\u{d7ff}', '😀'];
+
+fn splitmix(x: &mut u64) -> u64 {
+    *x = x.wrapping_add(0x9E37_79B9_7F4A_7C15);
+    let mut z = *x;
+    z = (z ^ (z >> 30)).wrapping_mul(0xBF58_476D_1CE4_E5B9);
+    z = (z ^ (z >> 27)).wrapping_mul(0x94D0_49BB_1331_11EB);
+    z ^ (z >> 31)
+}
+
+// ------------------------------------------------------------------------------------------------ long text strings
+/// A long string from its generator description (the replay input):
+///  slide : `filler` repeated `prefix` times, then the character `wide`, then "z"
+///  runs  : `lead` (possibly empty), then `unit` repeated `count` times
+///  random: `len` characters drawn from CLASS_ALPHABET with splitmix64(seed)
+fn long_string(v: &Value) -> Option<String> {
+    let ch = |k: &str| v[k].as_str().and_then(|s| s.chars().next());
+    match v["gen"].as_str()? {
+        "slide" => {
+            let n = v["prefix"].as_u64()? as usize;
+            let mut s = String::with_capacity(n * 3 + 8);
+            let f = ch("filler")?;
+            for _ in 0..n { s.push(f); }
+            s.push(ch("wide")?);
+            s.push('z');
+            Some(s)
+        }
+        "runs" => {
+            let mut s = v["lead"].as_str()?.to_string();
+            let u = ch("unit")?;
+            for _ in 0..v["count"].as_u64()? { s.push(u); }
+            Some(s)
+        }
+        "random" => {
+            let mut x = v["seed"].as_u64()?;
+            Some((0..v["len"].as_u64()?).map(|_| CLASS_ALPHABET[(splitmix(&mut x) % 14) as usize]).collect())
+        }
+        _ => None,
+    }
+}
+
+fn check_long(v: &Value) -> Result<(), (String, String)> {
+    let s = long_string(v).ok_or_else(|| ("replay".to_string(), format!("not a long-string description: {}", v)))?;
+    check_text(&s)?;
+    utf8_bom(&s)
+}
+
+/// lengths around every power of two up to 2^kmax
+fn boundary_lengths(kmax: u32) -> Vec<u64> {
+    let mut v = vec![];
+    for k in 5..=kmax { for d in -2i64..=2 { v.push(((1i64 << k) + d) as u64); } }
+    v
+}
+
+fn long_family(thorough: bool) -> Vec<Value> {
+    let mut specs: Vec<Value> = vec![];
+    // a character of two UTF-16 code units (four UTF-8 bytes), and one of three UTF-8 bytes, at every offset
+    let top: u64 = if thorough { 16_500 } else { 8_200 };
+    for (filler, wide) in [("x", "😀"), ("é", "😀"), ("€", "😀"), ("x", "€"), ("é", "€")] {
+        for p in 0..=top { specs.push(json!({"kind": "long", "gen": "slide", "filler": filler, "wide": wide, "prefix": p})); }
+    }
+    // nothing but surrogate pairs, at even and at odd code-unit offsets
+    let kmax = if thorough { 16 } else { 13 };
+    for lead in ["", "x"] { for n in boundary_lengths(kmax) { specs.push(json!({"kind": "long", "gen": "runs", "lead": lead, "unit": "😀", "count": n})); } }
+    // pseudo-random strings over the class alphabet
+    let seeds = if thorough { 12 } else { 4 };
+    for n in boundary_lengths(kmax) { for k in 0..seeds { specs.push(json!({"kind": "long", "gen": "random", "len": n, "seed": n * 1000 + k})); } }
+    specs
+}
+
+// ------------------------------------------------------------------------------------------------ text extraction
+/// what each predefined table gives for each byte (None: undefined code), harvested once through the public API
+fn tables() -> &'static Vec<[Option<char>; 256]> {
+    static T: OnceLock<Vec<[Option<char>; 256]>> = OnceLock::new();
+    T.get_or_init(|| {
+        let doc = Document::with_version("1.5");
+        TABLE_NAMES.iter().map(|t| {
+            let mut a = [None; 256];
+            if let Some(enc) = encoding_of(&doc, t) {
+                for b in 0..256usize {
+                    if let Ok(Ok(s)) = guarded(std::panic::AssertUnwindSafe(|| enc.bytes_to_string(&[b as u8]))) {
+                        let mut it = s.chars();
+                        if let (Some(c), None) = (it.next(), it.next()) { a[b] = Some(c); }
+                    }
+                }
+            }
+            a
+        }).collect()
+    })
+}
+
+/// the repertoire of a table: every character it can show, with the first code that shows it, in code order
+fn repertoire(t: usize) -> &'static Vec<(u8, char)> {
+    static R: OnceLock<Vec<Vec<(u8, char)>>> = OnceLock::new();
+    &R.get_or_init(|| tables().iter().map(|tab| {
+        let mut out: Vec<(u8, char)> = vec![];
+        for b in 0..256usize { if let Some(c) = tab[b] { if !out.iter().any(|(_, d)| *d == c) { out.push((b as u8, c)); } } }
+        out
+    }).collect())[t]
+}
+
+#[derive(Clone, Debug, PartialEq)]
+struct Level {
+    /// resource name -> index into TABLE_NAMES
+    fonts: Vec<(String, usize)>,
+    /// /Resources, its /Font subdictionary, each font dictionary: indirect reference (true) or direct object (false)
+    res_ind: bool,
+    fd_ind: bool,
+    font_ind: bool,
+}
+
+/// levels[0] is the page, levels[1] its parent /Pages node, ..., the last one the root of the page tree;
+/// None: the node has no /Resources entry. segs: (resource name selected with Tf, text shown with Tj), in order.
+#[derive(Clone, Debug)]
+struct ExSpec { levels: Vec<Option<Level>>, segs: Vec<(String, String)> }
+
+impl ExSpec {
+    fn to_json(&self) -> Value {
+        let levels: Vec<Value> = self.levels.iter().map(|l| match l {
+            None => Value::Null,
+            Some(l) => json!({"fonts": l.fonts.iter().map(|(n, t)| json!([n, TABLE_NAMES[*t]])).collect::<Vec<_>>(), "resources_indirect": l.res_ind, "fontdict_indirect": l.fd_ind, "font_indirect": l.font_ind}),
+        }).collect();
+        json!({"kind": "extract", "levels_page_outwards": levels, "segments": self.segs.iter().map(|(n, t)| json!([n, t])).collect::<Vec<_>>()})
+    }
+    fn from_json(v: &Value) -> Option<ExSpec> {
+        let mut levels = vec![];
+        for l in v["levels_page_outwards"].as_array()? {
+            if l.is_null() { levels.push(None); continue; }
+            let mut fonts = vec![];
+            for f in l["fonts"].as_array()? { fonts.push((f[0].as_str()?.to_string(), TABLE_NAMES.iter().position(|t| Some(*t) == f[1].as_str())?)); }
+            levels.push(Some(Level { fonts, res_ind: l["resources_indirect"].as_bool()?, fd_ind: l["fontdict_indirect"].as_bool()?, font_ind: l["font_indirect"].as_bool()? }));
+        }
+        let mut segs = vec![];
+        for s in v["segments"].as_array()? { segs.push((s[0].as_str()?.to_string(), s[1].as_str()?.to_string())); }
+        Some(ExSpec { levels, segs })
+    }
+    /// ISO 32000-1 7.7.3.4: /Resources is inheritable; a node's own entry takes the place of the inherited one. So the
+    /// resource dictionary in effect for the page's content is that of the nearest node, from the page outwards, having one.
+    fn effective(&self) -> Option<(usize, &Level)> { self.levels.iter().enumerate().find_map(|(i, l)| l.as_ref().map(|l| (i, l))) }
+    fn level_name(&self, i: usize) -> String {
+        if i == 0 { "the page".into() } else if i + 1 == self.levels.len() { "the root /Pages node".into() } else { "the intermediate /Pages node".into() }
+    }
+    /// the class of the layout, leading every failure detail (failures are grouped by the start of their detail)
+    fn class(&self) -> String {
+        let (ei, eff) = match self.effective() { Some(x) => x, None => return "(no resources)".into() };
+        let lvl = if ei == 0 { "page" } else if ei + 1 == self.levels.len() { "root node" } else { "middle node" };
+        let mut same = false;
+        let mut other = false;
+        for l in self.levels.iter().skip(ei + 1).flatten() { for (n, t) in &l.fonts { match eff.fonts.iter().find(|(m, _)| m == n) { Some((_, u)) if u != t => same = true, Some(_) => {}, None => other = true } } }
+        format!("(in effect: {}, {}; outer: {})", lvl, if eff.res_ind { "indirect" } else { "direct" },
+            if same { "same name, other encoding" } else if other { "other names" } else { "nothing different" })
+    }
+    fn summary(&self) -> String {
+        let mut parts = vec![];
+        for (i, l) in self.levels.iter().enumerate() {
+            match l {
+                None => parts.push(format!("{}: no /Resources", self.level_name(i))),
+                Some(l) => parts.push(format!("{}: {} /Resources with {}", self.level_name(i), if l.res_ind { "indirect" } else { "direct" },
+                    l.fonts.iter().map(|(n, t)| format!("/{} -> {}", n, TABLE_NAMES[*t])).collect::<Vec<_>>().join(", "))),
+            }
+        }
+        parts.join("; ")
+    }
+}
+
+fn font_dict(t: usize) -> Dictionary {
+    dictionary! { "Type" => "Font", "Subtype" => "Type1", "BaseFont" => "Helvetica", "Encoding" => TABLE_NAMES[t] }
+}
+
+fn resources_object(doc: &mut Document, l: &Level) -> Object {
+    let mut fd = Dictionary::new();
+    for (name, t) in &l.fonts {
+        let f = font_dict(*t);
+        let v = if l.font_ind { Object::Reference(doc.add_object(f)) } else { Object::Dictionary(f) };
+        fd.set(name.as_bytes().to_vec(), v);
+    }
+    let fdo = if l.fd_ind { Object::Reference(doc.add_object(fd)) } else { Object::Dictionary(fd) };
+    let res = dictionary! { "Font" => fdo };
+    if l.res_ind { Object::Reference(doc.add_object(res)) } else { Object::Dictionary(res) }
+}
+
+/// the document of a description and the text it shows; Err: the description is outside the family (a Tf names a font
+/// that the resource dictionary in effect does not define, or a character outside the repertoire of its encoding)
+fn build_extract(spec: &ExSpec) -> Result<(Document, String), String> {
+    let (_, eff) = spec.effective().ok_or("no /Resources at any level")?;
+    let mut ops = vec![Operation::new("BT", vec![])];
+    let mut want = String::new();
+    for (k, (name, text)) in spec.segs.iter().enumerate() {
+        let t = eff.fonts.iter().find(|(n, _)| n == name).ok_or(format!("/{} is not defined by the resource dictionary in effect", name))?.1;
+        let rep = repertoire(t);
+        let mut bytes = vec![];
+        for c in text.chars() { bytes.push(rep.iter().find(|(_, d)| *d == c).ok_or(format!("{} is not in the repertoire of {}", cp(c), TABLE_NAMES[t]))?.0); }
+        ops.push(Operation::new("Tf", vec![Object::Name(name.as_bytes().to_vec()), 12.into()]));
+        if k == 0 { ops.push(Operation::new("Td", vec![50.into(), 700.into()])); }
+        ops.push(Operation::new("Tj", vec![Object::string_literal(bytes)]));
+        want.push_str(text);
+    }
+    ops.push(Operation::new("ET", vec![]));
+    let mut doc = Document::with_version("1.5");
+    let nodes: Vec<ObjectId> = (1..spec.levels.len()).map(|_| doc.new_object_id()).collect();
+    if nodes.is_empty() { return Err("no page tree node".into()); }
+    let content_id = doc.add_object(Stream::new(dictionary! {}, Content { operations: ops }.encode().map_err(|e| e.to_string())?));
+    let mut page = dictionary! { "Type" => "Page", "Parent" => nodes[0], "Contents" => content_id };
+    if let Some(l) = &spec.levels[0] { let r = resources_object(&mut doc, l); page.set("Resources", r); }
+    let mut kid = doc.add_object(page);
+    for (i, id) in nodes.iter().enumerate() {
+        let mut d = dictionary! { "Type" => "Pages", "Kids" => vec![Object::Reference(kid)], "Count" => 1 };
+        if i + 1 < nodes.len() { d.set("Parent", nodes[i + 1]); } else { d.set("MediaBox", vec![0.into(), 0.into(), 595.into(), 842.into()]); }
+        if let Some(l) = &spec.levels[i + 1] { let r = resources_object(&mut doc, l); d.set("Resources", r); }
+        doc.objects.insert(*id, Object::Dictionary(d));
+        kid = *id;
+    }
+    let catalog = doc.add_object(dictionary! { "Type" => "Catalog", "Pages" => kid });
+    doc.trailer.set("Root", catalog);
+    Ok((doc, want))
+}
+
+/// extraction ends a text object with a line feed; apart from that the text is to come back unchanged
+fn same_text(want: &str, got: &str) -> bool { got == want || got.strip_suffix('\n') == Some(want) }
+
+/// why the extracted text differs: position, and which other binding of the same name explains the character
+fn explain(spec: &ExSpec, want: &str, got: &str) -> String {
+    let mut out = first_diff(want, got.strip_suffix('\n').unwrap_or(got));
+    let (ei, eff) = match spec.effective() { Some(x) => x, None => return out };
+    // locate the differing character in the segments to name its font and code
+    let g: Vec<char> = got.chars().collect();
+    let mut i = 0usize;
+    for (name, text) in &spec.segs {
+        let t = match eff.fonts.iter().find(|(n, _)| n == name) { Some(f) => f.1, None => return out };
+        for c in text.chars() {
+            if g.get(i) != Some(&c) {
+                let code = repertoire(t).iter().find(|(_, d)| *d == c).map(|x| x.0).unwrap_or(0);
+                out.push_str(&format!(" (shown with /{} -> {} of {}, code {:#04x})", name, TABLE_NAMES[t], spec.level_name(ei), code));
+                for (j, l) in spec.levels.iter().enumerate() {
+                    if j == ei { continue; }
+                    if let Some(l) = l { for (n2, t2) in &l.fonts { if n2 == name && *t2 != t && g.get(i).is_some() && tables()[*t2][code as usize] == g.get(i).copied() {
+                        out.push_str(&format!("; the character returned is what {} gives for that code: the /{} of {} was used although it is not in effect", TABLE_NAMES[*t2], n2, spec.level_name(j)));
+                    } } }
+                }
+                return out;
+            }
+            i += 1;
+        }
+    }
+    out
+}
+
+fn check_extract(spec: &ExSpec) -> Result<(), (String, String)> {
+    check_extract_inner(spec).map_err(|(o, d)| (o, format!("{} {}", spec.class(), d)))
+}
+
+fn check_extract_inner(spec: &ExSpec) -> Result<(), (String, String)> {
+    let (mut doc, want) = match build_extract(spec) { Ok(x) => x, Err(_) => return Ok(()) };
+    let show = |s: &str| -> String { let v: String = s.chars().take(48).collect(); if v.len() < s.len() { format!("{:?}...", v) } else { format!("{:?}", v) } };
+    match guarded(std::panic::AssertUnwindSafe(|| doc.extract_text(&[1]))) {
+        Err(p) => return Err(("extract-no-panic".into(), format!("extract_text panicked: {} [{}]", p, spec.summary()))),
+        Ok(Err(e)) => return Err(("extract-unchanged".into(), format!("text {} shown on a page is not extracted: {} [{}]", show(&want), e, spec.summary()))),
+        Ok(Ok(got)) => if !same_text(&want, &got) { return Err(("extract-unchanged".into(), format!("text {} shown on a page is extracted as {}: {} [{}]", show(&want), show(&got), explain(spec, &want, &got), spec.summary()))); }
+    }
+    let mut saved = vec![];
+    match guarded(std::panic::AssertUnwindSafe(|| doc.save_to(&mut saved))) {
+        Err(p) => return Err(("extract-no-panic".into(), format!("save_to panicked: {} [{}]", p, spec.summary()))),
+        Ok(Err(e)) => return Err(("extract-save-reload".into(), format!("the document cannot be saved: {} [{}]", e, spec.summary()))),
+        Ok(Ok(())) => {}
+    }
+    let re = match guarded(|| Document::load_mem(&saved)) {
+        Err(p) => return Err(("extract-no-panic".into(), format!("load_mem panicked on the saved document: {} [{}]", p, spec.summary()))),
+        Ok(Err(e)) => return Err(("extract-save-reload".into(), format!("the saved document cannot be loaded: {} [{}]", e, spec.summary()))),
+        Ok(Ok(d)) => d,
+    };
+    match guarded(std::panic::AssertUnwindSafe(|| re.extract_text(&[1]))) {
+        Err(p) => Err(("extract-no-panic".into(), format!("extract_text panicked after save and reload: {} [{}]", p, spec.summary()))),
+        Ok(Err(e)) => Err(("extract-unchanged-after-reload".into(), format!("text {} is not extracted after save and reload: {} [{}]", show(&want), e, spec.summary()))),
+        Ok(Ok(got)) => if same_text(&want, &got) { Ok(()) } else { Err(("extract-unchanged-after-reload".into(), format!("text {} is extracted after save and reload as {}: {} [{}]", show(&want), show(&got), explain(spec, &want, &got), spec.summary()))) },
+    }
+}
+
+/// a pseudo-random string over the repertoire of a table, half of the characters from the upper half of the code space
+fn random_text(t: usize, seed: u64) -> String {
+    let rep = repertoire(t);
+    if rep.is_empty() { return String::new(); }
+    let upper: Vec<char> = rep.iter().filter(|(b, _)| *b >= 0x80).map(|x| x.1).collect();
+    let mut x = seed;
+    let n = 1 + splitmix(&mut x) % 24;
+    (0..n).map(|_| { let r = splitmix(&mut x); if r & 1 == 1 && !upper.is_empty() { upper[(r >> 8) as usize % upper.len()] } else { rep[(r >> 8) as usize % rep.len()].1 } }).collect()
+}
+
+fn full_text(t: usize) -> String { repertoire(t).iter().map(|x| x.1).collect() }
+
+/// Every way a page of a page tree of depth 1 or 2 can come by the font it shows text with.
+///  - the resource dictionary in effect sits at the page or at either ancestor level (nearer levels have none);
+///  - it binds /F1 to each table, and optionally /F2 to a second table (text is then shown with both in turn);
+///  - each level further out has no /Resources, or binds /F1, or /F2, or both, to each table (bindings that are NOT
+///    in effect: the same name with another encoding must not leak into the page);
+///  - /Resources, the /Font subdictionary and the font dictionaries are direct objects or indirect references.
+fn extract_family(thorough: bool) -> Vec<ExSpec> {
+    let nt = TABLE_NAMES.len();
+    let mut outer: Vec<Option<Vec<(String, usize)>>> = vec![None];
+    for e in 0..nt { outer.push(Some(vec![("F1".into(), e)])); }
+    for e in 0..nt { outer.push(Some(vec![("F2".into(), e)])); }
+    for e in 0..nt { outer.push(Some(vec![("F1".into(), e), ("F2".into(), (e + 2) % nt)])); }
+    // (resources indirect at the level in effect, at outer levels, font subdictionary indirect, fonts indirect)
+    let shapes: Vec<(bool, bool, bool, bool)> = if thorough {
+        let mut v = vec![];
+        for a in [true, false] { for b in [true, false] { for c in [false, true] { for d in [true, false] { v.push((a, b, c, d)); } } } }
+        v
+    } else { vec![(true, true, false, true), (false, true, false, true), (true, false, true, false), (false, false, true, true)] };
+    let mut specs = vec![];
+    let mut serial = 0u64;
+    for depth in 1..=2usize {
+        for eff in 0..=depth {
+            for ea in 0..nt {
+                let seconds: Vec<Option<usize>> = if thorough { std::iter::once(None).chain((0..nt).map(Some)).collect() } else { vec![None, Some((ea + 1) % nt), Some((ea + 3) % nt)] };
+                for eb in &seconds {
+                    let mut fonts = vec![("F1".to_string(), ea)];
+                    if let Some(eb) = eb { fonts.push(("F2".to_string(), *eb)); }
+                    // the outer levels: eff+1 ..= depth
+                    let n_outer = depth - eff;
+                    let combos = outer.len().pow(n_outer as u32);
+                    for combo in 0..combos {
+                        for (k, sh) in shapes.iter().enumerate() {
+                            let mut levels: Vec<Option<Level>> = vec![None; eff];
+                            levels.push(Some(Level { fonts: fonts.clone(), res_ind: sh.0, fd_ind: sh.2, font_ind: sh.3 }));
+                            let mut c = combo;
+                            for _ in 0..n_outer {
+                                levels.push(outer[c % outer.len()].clone().map(|f| Level { fonts: f, res_ind: sh.1, fd_ind: sh.2, font_ind: sh.3 }));
+                                c /= outer.len();
+                            }
+                            // texts: the whole repertoire of the table once per description and shape 0, pseudo-random otherwise
+                            serial += 1;
+                            let mut segs = vec![("F1".to_string(), if k == 0 { full_text(ea) } else { random_text(ea, serial) })];
+                            if let Some(eb) = eb { segs.push(("F2".to_string(), if k == 1 { full_text(*eb) } else { random_text(*eb, serial ^ 0xABCD_EF01) })); }
+                            if k >= 2 && eb.is_some() { segs.push(("F1".to_string(), random_text(ea, serial ^ 0x1357_9BDF))); }
+                            specs.push(ExSpec { levels, segs });
+                        }
+                    }
+                }
+            }
+        }
+    }
+    specs
+}
+
 pub fn strings(thorough: bool) -> Report {
-    let mut rep = Report::new("every string of length <= 4 (quick: <= 3) over a 14-character class alphabet {a, space, LF, NUL, DEL, 0x18, e-acute, U+00FF, U+FEFF, U+FFFE, U+0100, euro, U+D7FF, U+1F600}; plus lone BOMs and odd-length UTF-16", true);
+    let mut rep = Report::new(&format!("(a) every string of length <= 4 (quick: <= 3) over a 14-character class alphabet {{a, space, LF, NUL, DEL, 0x18, e-acute, U+00FF, U+FEFF, U+FFFE, U+0100, euro, U+D7FF, U+1F600}}; plus lone BOMs and odd-length UTF-16; \
+(b) long text strings, each through text_string/decode_text_string and as UTF-8 with BOM: filler^p + wide + 'z' for EVERY p in 0..={} and (filler, wide) in {{(x, U+1F600), (e-acute, U+1F600), (euro, U+1F600), (x, euro), (e-acute, euro)}} (a two-code-unit / multi-byte character at every offset), \
+U+1F600^n and 'x' + U+1F600^n for n = 2^k + d, k in 5..={}, d in -2..=2 (surrogate pairs at even and at odd offsets), {} pseudo-random strings over the class alphabet for each of those lengths; \
+(c) text extraction from one-page documents, as built and after save_to + load_mem: page tree of depth 1 and 2; the /Resources in effect (ISO 32000-1 7.7.3.4) at the page or at either ancestor, binding /F1 to each of the 5 tables and optionally /F2 to {}; \
+every level further out without /Resources or binding /F1, /F2 or both to each of the 5 tables (not in effect); {} direct/indirect shapes of /Resources, /Font and the font dictionaries; \
+text = the whole repertoire of the table or a pseudo-random string over it (1..24 characters, half from codes >= 0x80), shown with /F1, /F2, /F1 in turn",
+        if thorough { 16_500 } else { 8_200 }, if thorough { 16 } else { 13 }, if thorough { 12 } else { 4 }, if thorough { "each table" } else { "2 other tables" }, if thorough { 16 } else { 4 }), true);
+    rep.obligations = 8;
     // 2. strings over a class alphabet
-    let alpha: Vec<char> = vec!['a', ' ', '\n', '\u{0}', '\u{7f}', '\u{18}', 'é', '\u{ff}', '\u{feff}', '\u{fffe}', 'Ā', '€', '\u{d7ff}', '😀'];
+    let alpha: Vec<char> = CLASS_ALPHABET.to_vec();
     let maxlen = if thorough { 4 } else { 3 };
     let mut strings: Vec<String> = vec![String::new()];
     let mut frontier = vec![String::new()];
@@ -117,16 +519,48 @@ pub fn strings(thorough: bool) -> Report {
     // odd-length UTF-16 and lone BOMs never panic
     for bytes in [vec![0xFEu8, 0xFF], vec![0xFE, 0xFF, 0x00], vec![0xFE, 0xFF, 0xD8, 0x00], vec![0xEF, 0xBB, 0xBF], vec![0xEF, 0xBB, 0xBF, 0xFF], vec![0xFF, 0xFE, 0x41, 0x00]] {
         rep.case(true);
-        let o = Object::String(bytes.clone(), StringFormat::Literal);
-        if let Err(p) = guarded(|| { let _ = decode_text_string(&o); }) { rep.fail("text-no-panic", format!("decode_text_string panicked on {:02x?}: {}", bytes, p), json!({"kind": "raw", "bytes": hex(&bytes)}), p); }
+        if let Err(d) = check_raw(&bytes) { rep.fail("text-no-panic", d.clone(), json!({"kind": "raw", "bytes": hex(&bytes)}), d); }
     }
+    // long strings
+    let t0 = std::time::Instant::now();
+    let longs = long_family(thorough);
+    let mut fails: Vec<(usize, String, String)> = longs.par_iter().enumerate().filter_map(|(i, v)| check_long(v).err().map(|(o, d)| (i, o, d))).collect();
+    fails.sort();
+    for _ in 0..longs.len() { rep.case(true); }
+    let total = fails.len();
+    for (i, o, d) in fails { rep.fail(&o, format!("[{} of the {} long strings fail] {}", total, longs.len(), d), longs[i].clone(), d.clone()); }
+    rep.sample("'x' x p + U+1F600 + 'z' for every p".into());
+    if std::env::var("C16_TIMES").is_ok() { eprintln!("long strings: {:?}", t0.elapsed()); }
+    // text extraction
+    let t0 = std::time::Instant::now();
+    let _ = tables();
+    let specs = extract_family(thorough);
+    let mut fails: Vec<(usize, String, String)> = specs.par_iter().enumerate().filter_map(|(i, s)| check_extract(s).err().map(|(o, d)| (i, o, d))).collect();
+    fails.sort();
+    for _ in 0..specs.len() { rep.case(true); }
+    let total = fails.len();
+    for (i, o, d) in fails { rep.fail(&o, format!("[{} of the {} documents fail] {}", total, specs.len(), d), specs[i].to_json(), d.clone()); }
+    if std::env::var("C16_TIMES").is_ok() { eprintln!("extraction: {:?}", t0.elapsed()); }
+    if let Some(s) = specs.iter().find(|s| s.levels.len() == 3 && s.levels[0].is_some() && s.levels[1].is_some()) { rep.sample(s.summary()); }
     rep
+}
+
+fn check_raw(bytes: &[u8]) -> Result<(), String> {
+    let o = Object::String(bytes.to_vec(), StringFormat::Literal);
+    guarded(|| { let _ = decode_text_string(&o); }).map_err(|p| format!("decode_text_string panicked on {:02x?}: {}", bytes, p))
 }
 
 pub fn replay(v: &Value) -> Result<(), String> {
     match v["kind"].as_str() {
         Some("text") => check_text(v["s"].as_str().unwrap_or("")).map_err(|e| format!("{}: {}", e.0, e.1)),
         Some("utf8") => utf8_bom(v["s"].as_str().unwrap_or("")).map_err(|e| format!("{}: {}", e.0, e.1)),
+        Some("raw") => check_raw(&unhex(v["bytes"].as_str().unwrap_or(""))),
+        Some("long") => check_long(v).map_err(|e| format!("{}: {}", e.0, e.1)),
+        Some("extract") => {
+            let spec = ExSpec::from_json(v).ok_or("malformed extraction description")?;
+            build_extract(&spec).map_err(|e| format!("description outside the family: {}", e))?;
+            check_extract(&spec).map_err(|e| format!("{}: {}", e.0, e.1))
+        }
         Some("table") => {
             let rep = run(false);
             let t = v["table"].as_str().unwrap_or("");
